@@ -3,6 +3,7 @@ package main
 // Solver race.
 
 import (
+	"runtime"
 	"bytes"
 	"hash/fnv"
 	"context"
@@ -108,7 +109,45 @@ func runSolver(name, file string, secs int) (string, string, float64) {
 	return runSolverCtx(context.Background(), name, file, secs)
 }
 
+// procSem bounds the number of solver processes running at once to the number of cores: time limits are wall-clock, so
+// a portfolio that oversubscribes the machine turns provable obligations into timeouts.
+var procSem = make(chan struct{}, maxInt(4, runtime.NumCPU()))
+
+func maxInt(a, b int) int {
+	if a > b {
+		return a
+	}
+	return b
+}
+
+// loadScale stretches time limits when other work (another check, the test suite) already keeps the cores busy.
+func loadScale() float64 {
+	data, err := os.ReadFile("/proc/loadavg")
+	if err != nil {
+		return 1
+	}
+	var l1 float64
+	if _, err := fmt.Sscanf(string(data), "%f", &l1); err != nil {
+		return 1
+	}
+	f := l1 / float64(runtime.NumCPU())
+	switch {
+	case f <= 1:
+		return 1
+	case f > 3:
+		return 3
+	}
+	return f
+}
+
 func runSolverCtx(parent context.Context, name, file string, secs int) (string, string, float64) {
+	select {
+	case procSem <- struct{}{}:
+		defer func() { <-procSem }()
+	case <-parent.Done():
+		return "timeout", "", 0
+	}
+	secs = int(float64(secs)*loadScale() + 0.5)
 	sp := solvers[name]
 	argv := sp.args(file, secs)
 	ctx, cancel := context.WithTimeout(parent, time.Duration(secs+5)*time.Second)
@@ -151,6 +190,7 @@ type solveCfg struct {
 	tier     string
 	parallel int
 	keepAll  bool
+	short    map[string]bool // obligation names (per goal) that get the first two stages only
 }
 
 // fileBase turns an obligation name into a file name of bounded length.
@@ -255,6 +295,8 @@ func decide(cfg solveCfg, v *Verdict) {
 			a2, s2, t2, el2 := raceSolvers(stage2, v.File, 10)
 			if a2 == "unsat" || a2 == "sat" {
 				record(a2, s2, el2, t2)
+			} else if cfg.short[v.Name] || cfg.short[splitBase(v.Name)] {
+				v.Secs += el2
 			} else {
 				v.Secs += el2
 				stage3 := []string{"z3-new/p6", "z3-new/p7", "z3-new/p8", "z3-new/p9", "z3-new/p10", "z3-new/p11", "z3-new/p12", "z3-new/s1"}
